@@ -13,7 +13,8 @@ every class in `src/pytezos/michelson/types/`).
            RFC 3339 formatting / parsing (`datetime`, `strict_rfc3339`), `check_constraints` of sets and maps
            (`sorted` + `set`, C03's order), `Micheline.match(..).as_micheline_expr()` of lambda bodies.
 * `Impl.Value.toMich`, `Impl.Value.ofMich` — the mirror.  Facts read from the source by the translator
-           (`Generated.C11`): does `iter_comb` consult annotations, the timestamp range guard, the handler tables
+           (`Generated.C11`): does `iter_comb` consult annotations, the timestamp range guard, the year padding of
+           `format_timestamp`, the shape of `optimize_timestamp` (RFC 3339 first, then `int`), the handler tables
            of `parse_micheline_value` / `parse_micheline_literal` of every class, `bls12_381_fr` modulus, mutez width.
 -/
 namespace VC
@@ -146,6 +147,13 @@ structure Env.Lawful (env : Env) : Prop where
   ts_rt : ∀ t : Int, rfcLo ≤ t → t ≤ rfcHi → env.parseTs (env.fmtTs t) = some t
   lambda_rt : ∀ code, env.lambdaOk code = true → env.normLambda code = some code
 
+/-- `Env.Lawful` without the RFC 3339 law: what is left as a hypothesis once the clock is the concrete
+`Civil.fmtTimestamp` / `Civil.parseTimestamp`, for which that law is proved -/
+structure Env.LawfulCodecs (env : Env) : Prop where
+  text_rt : ∀ k d, env.valid k d = true → env.ofText k (env.text k d) = some d
+  bin_rt : ∀ k d, env.valid k d = true → env.ofBin k (env.bin k d) = some (binNorm k d)
+  lambda_rt : ∀ code, env.lambdaOk code = true → env.normLambda code = some code
+
 /-! ### tables read from the source -/
 
 /-- `(prim, len(args)) in handlers` of `parse_micheline_value` in the class of type `ty` -/
@@ -164,8 +172,8 @@ def consults : Bool := Generated.C11.combConsultsAnnots.getD true
 
 def sourceOk : Bool :=
   Generated.C11.combConsultsAnnots.isSome && Generated.C11.pairToMichRecognised && Generated.C11.pairFromMichRecognised
-    && Generated.C11.tsGuard.isSome && Generated.C11.yearPadded.isSome && Generated.C11.frModulus.isSome
-    && Generated.C11.mutezBits.isSome
+    && Generated.C11.tsGuard.isSome && Generated.C11.yearPadded.isSome && Generated.C11.tsParseRecognised
+    && Generated.C11.frModulus.isSome && Generated.C11.mutezBits.isSome
 
 def DomKind.prim : DomKind → String
   | .address => "address" | .contract => "address" | .keyHash => "key_hash" | .key => "key"
